@@ -605,8 +605,9 @@ class CGraph:
         if w.ndim != 1:
             raise ValueError("w.ndim must be 1 but provided %d"%w.ndim)
 
-        if x.shape != v.shape or x.shape != w.shape:
-            raise ValueError("x.shape must be the same as v.shape or v.shape, but provided x.shape=%s, v.shape=%s and w.shape=%s"%(x.shape, v.shape, w.shape))
+        # (w has one entry per component of F: R^N -> R^M, not per variable)
+        if x.shape != v.shape:
+            raise ValueError("x.shape must be the same as v.shape, but provided x.shape=%s, v.shape=%s and w.shape=%s"%(x.shape, v.shape, w.shape))
 
         # raise NotImplementedError('this function does not work correctly yet')
 
